@@ -9,22 +9,23 @@ Import ListNotations.
 Open Scope N_scope.
 
 (* (1) For every interleaving of a subscribe call with the sessions' inserts,
-   removes, session-downs, soft resets and policy changes: once every thread has
-   finished and the snapshot has been sent, the subscriber's fold of what it
-   received is exactly the pre-policy and the post-policy Adj-RIB-In. *)
+   removes, session-downs, soft resets and policy changes (some thread calls
+   subscribe at some point of its program): once every thread has finished, the
+   subscriber's fold of what it received is exactly the pre-policy and the
+   post-policy Adj-RIB-In. *)
 Theorem subscriber_fold_eq_rib :
-  forall (c : cfg) (progs : list (list op)) (sched : list nat),
-    wf_progs progs ->
+  forall (c : cfg) (progs : list (list op)) (sched : list nat) (i : nat),
+    wf_progs progs -> In Subscribe (nth i progs []) ->
     let s := run_sched c Fixed (init progs) sched in
-    all_done s -> 2 <= g_walk (s_g s) ->
+    all_done s ->
     forall k, fold_pre (g_evs (s_g s)) k = rib_pre (s_g s) k /\
               fold_post (g_evs (s_g s)) k = rib_post (s_g s) k.
-Proof. exact C18_subscriber_fold_eq_rib. Qed.
+Proof. exact C18_subscriber_fold_eq_rib_sub. Qed.
 Check subscriber_fold_eq_rib :
-  forall (c : cfg) (progs : list (list op)) (sched : list nat),
-    wf_progs progs ->
+  forall (c : cfg) (progs : list (list op)) (sched : list nat) (i : nat),
+    wf_progs progs -> In Subscribe (nth i progs []) ->
     let s := run_sched c Fixed (init progs) sched in
-    all_done s -> 2 <= g_walk (s_g s) ->
+    all_done s ->
     forall k, fold_pre (g_evs (s_g s)) k = rib_pre (s_g s) k /\
               fold_post (g_evs (s_g s)) k = rib_post (s_g s) k.
 Print Assumptions subscriber_fold_eq_rib.
@@ -33,21 +34,21 @@ Print Assumptions subscriber_fold_eq_rib.
    peer counts as a withdrawal) is the current state; a key never mentioned is
    not in the RIB. *)
 Theorem last_event_is_current :
-  forall (c : cfg) (progs : list (list op)) (sched : list nat),
-    wf_progs progs ->
+  forall (c : cfg) (progs : list (list op)) (sched : list nat) (i : nat),
+    wf_progs progs -> In Subscribe (nth i progs []) ->
     let s := run_sched c Fixed (init progs) sched in
-    all_done s -> 2 <= g_walk (s_g s) ->
+    all_done s ->
     forall k,
       (forall x, last_touch false k (g_evs (s_g s)) = Some x -> rib_pre (s_g s) k = x) /\
       (last_touch false k (g_evs (s_g s)) = None -> rib_pre (s_g s) k = None) /\
       (forall x, last_touch true k (g_evs (s_g s)) = Some x -> rib_post (s_g s) k = x) /\
       (last_touch true k (g_evs (s_g s)) = None -> rib_post (s_g s) k = None).
-Proof. exact C18_last_event_is_current. Qed.
+Proof. exact C18_last_event_is_current_sub. Qed.
 Check last_event_is_current :
-  forall (c : cfg) (progs : list (list op)) (sched : list nat),
-    wf_progs progs ->
+  forall (c : cfg) (progs : list (list op)) (sched : list nat) (i : nat),
+    wf_progs progs -> In Subscribe (nth i progs []) ->
     let s := run_sched c Fixed (init progs) sched in
-    all_done s -> 2 <= g_walk (s_g s) ->
+    all_done s ->
     forall k,
       (forall x, last_touch false k (g_evs (s_g s)) = Some x -> rib_pre (s_g s) k = x) /\
       (last_touch false k (g_evs (s_g s)) = None -> rib_pre (s_g s) k = None) /\
